@@ -146,6 +146,102 @@ pub fn run_case(ctx: &Ctx, case: &DropCase) -> CaseResult {
     Ok(rep)
 }
 
+/// "setup-failure": a set-up that fails half way (the k-th mmap is refused) is a teardown of its own: what the
+/// earlier steps created - the ring descriptor, the mappings made so far - must be released exactly once, each
+/// mapping with its length, and nothing else unmapped or closed.
+#[derive(Debug, Clone, Serialize, Deserialize)]
+pub struct SetupFailCase {
+    pub cfg: RingCfg,
+    /// which mmap call of the set-up is refused (0-based)
+    pub fail_mmap: u8,
+}
+
+pub fn run_setup_failure(ctx: &Ctx, case: &SetupFailCase) -> CaseResult {
+    let cfg = case.cfg;
+    let mut rep = CaseReport::new();
+    sc::verif::plan(vec![sc::verif::Rule { nr: Some(NR_MMAP), nth: Some(case.fail_mmap as usize), action: sc::verif::Action::ForceRet(sc::verif::neg_errno(libc::ENOMEM)), times: 1 }]);
+    sc::verif::log_begin();
+    let r = vh::runner::catch(|| setup_io_uring(cfg.entries, cfg.flags(), 0, 5));
+    let log = sc::verif::log_end();
+    let injected = sc::verif::forced_count() > 0;
+    sc::verif::clear_plan();
+    let what = format!("setup_io_uring({}, {}) with its mmap call #{} refused (ENOMEM)", cfg.entries, cfg.flag_name(), case.fail_mmap);
+    let ring = match r {
+        Err((loc, msg)) => return Err(Failure::new(format!("setup_io_uring|panic|{loc}"), format!("{what}: {msg}"))),
+        Ok(Ok(ring)) => {
+            if injected {
+                return Err(Failure::new("setup_io_uring|ok-although-a-mapping-failed", format!("{what} returned a ring")));
+            }
+            // the set-up makes fewer mmap calls than that: nothing was refused
+            Some(ring)
+        }
+        Ok(Err(_)) => None,
+    };
+    if let Some(ring) = ring {
+        let mut s = Session { ring: Some(ring), cfg, sq_entries: cfg.sq_entries(), submitted: 0, batches: 0 };
+        s.finish();
+        return Ok(rep);
+    }
+    if !injected {
+        // failed on its own account (flag set not accepted here)
+        ctx.inconclusive();
+        return Ok(rep);
+    }
+    let mut maps: Vec<(usize, usize, usize)> = Vec::new(); // (addr, len, released)
+    let mut fd: Option<(usize, usize)> = None; // (number, closes)
+    for c in &log {
+        if c.nr == NR_IO_URING_SETUP && !is_err(c.ret) {
+            fd = Some((c.ret, 0));
+        } else if c.nr == NR_MMAP && !is_err(c.ret) {
+            if !maps.iter().any(|m| m.0 == c.ret && m.1 == c.args[1]) {
+                maps.push((c.ret, c.args[1], 0));
+            }
+        } else if c.nr == NR_MUNMAP {
+            match maps.iter_mut().find(|m| m.0 == c.args[0]) {
+                Some(m) if m.1 == c.args[1] => {
+                    m.2 += 1;
+                    if m.2 == 2 {
+                        return Err(Failure::new("setup_io_uring|double-munmap|failed set-up", format!("{what}: munmap({:#x}, {:#x}) is called twice on the way out (mappings made before the failure: {:x?}); the second call releases whatever has been mapped there since", c.args[0], c.args[1], maps.iter().map(|m| (m.0, m.1)).collect::<Vec<_>>())));
+                    }
+                }
+                Some(m) => return Err(Failure::new("setup_io_uring|wrong-munmap-length|failed set-up", format!("{what}: munmap({:#x}, {:#x}) but that mapping is {:#x} bytes long", c.args[0], c.args[1], m.1))),
+                None => return Err(Failure::new("setup_io_uring|foreign-munmap|failed set-up", format!("{what}: munmap({:#x}, {:#x}) of a range the set-up did not create ({:x?})", c.args[0], c.args[1], maps.iter().map(|m| (m.0, m.1)).collect::<Vec<_>>()))),
+            }
+        } else if c.nr == NR_CLOSE {
+            match &mut fd {
+                Some((n, closes)) if *n == c.args[0] => {
+                    *closes += 1;
+                    if *closes == 2 {
+                        return Err(Failure::new("setup_io_uring|double-close|failed set-up", format!("{what}: close({n}) twice")));
+                    }
+                }
+                _ => return Err(Failure::new("setup_io_uring|foreign-close|failed set-up", format!("{what}: close({}) of a descriptor the set-up did not create", c.args[0] as i32))),
+            }
+        }
+    }
+    for m in &maps {
+        if m.2 == 0 {
+            unsafe { libc::munmap(m.0 as *mut libc::c_void, m.1) };
+            return Err(Failure::new("setup_io_uring|mapping-not-released|failed set-up", format!("{what}: the mapping {:#x}+{:#x} made before the failure is never unmapped", m.0, m.1)));
+        }
+    }
+    match fd {
+        Some((n, 0)) => {
+            sys::close_quiet(n as i32);
+            return Err(Failure::new("setup_io_uring|ring-fd-not-closed|failed set-up", format!("{what}: the ring descriptor {n} is never closed")));
+        }
+        None => {
+            ctx.inconclusive();
+            return Ok(rep);
+        }
+        _ => {}
+    }
+    rep.nontrivial = true;
+    rep.class(["first-mapping-refused", "second-mapping-refused", "third-mapping-refused"][(case.fail_mmap as usize).min(2)]);
+    rep.class_if(!maps.is_empty(), "mappings-to-undo");
+    Ok(rep)
+}
+
 fn is_known(ctx: &Ctx, sig: &str) -> bool {
     ctx.known.iter().any(|k| sig == k.signature || (k.signature.ends_with('*') && sig.starts_with(&k.signature[..k.signature.len() - 1])))
 }
@@ -198,7 +294,26 @@ pub fn run(ctx: &Ctx) {
         if let Some(c) = ctx.replay_case::<DropCase>("drop") {
             ctx.run_one("drop", &c, || run_case(ctx, &c));
         }
+        if let Some(c) = ctx.replay_case::<SetupFailCase>("setup-failure") {
+            ctx.run_one("setup-failure", &c, || run_setup_failure(ctx, &c));
+        }
         return;
+    }
+    // every accepted flag set x a few ring sizes x each mmap of the set-up refused
+    let mut k = 0u32;
+    'sf: for entries in [1u32, 4, 8, 33, 256, 4096] {
+        for cfg in pr.cfgs(entries) {
+            for fail_mmap in 0u8..3 {
+                k += 1;
+                if k % ctx.nworkers != ctx.worker {
+                    continue;
+                }
+                let case = SetupFailCase { cfg, fail_mmap };
+                if !ctx.run_one("setup-failure", &case, || run_setup_failure(ctx, &case)) {
+                    break 'sf;
+                }
+            }
+        }
     }
     // exhaustive over the stated domain: entries 1..=32 x accepted flag sets x {fresh, used}
     let mut idx = 0usize;
